@@ -478,7 +478,8 @@ def single_assignment_init(fn, decl):
                     init = None
                 elif k == "call" and p.get("ck") == "operator" and p.get("args") and p["args"][0].get("id") == r["id"] and (p.get("op", "").endswith("=") and p["op"] not in ("==", "!=", "<=", ">=") or p.get("op") in ("++", "--")):
                     init = None
-                elif k == "call" and p.get("ck") == "member" and isinstance(p.get("obj"), dict) and p["obj"].get("id") == r["id"] and p.get("constm") is False:
+                elif k == "call" and p.get("ck") == "member" and isinstance(p.get("obj"), dict) and p["obj"].get("id") == r["id"] and p.get("constm") is False \
+                        and not (r.get("type") or "").rstrip().endswith("*"):
                     init = None
                 if init is None:
                     break
